@@ -187,5 +187,78 @@ def insert_contracts():
                             new_operator='N', new_operator_type=TStr,
                             create_group=cg, new_operator_alias=None),
                         requires=req, ensures=ens, raises=raises,
+                        always_raises=exp is None,
                         serves=('C02',), native=False))
+    # the legacy factory: no keyword pseudo-operator; `=>` is an ordinary
+    # left-associative binary operator in a group of its own just below `or`
+    cs.append(Contract(
+        'yaql.legacy.YaqlFactory.__init__', name='legacy.factory.__init__',
+        params=dict(self=obj('yaql.legacy.YaqlFactory'),
+                    allow_delegates=TBool),
+        env={'wf': _wf, 'std': obj('yaql.language.factory.YaqlFactory')},
+        ensures=['self._keyword_operator is None', 'wf(self.operators)',
+                 'self._allow_delegates is allow_delegates',
+                 'len(self.operators) == len(std._standard_operators()) + 2',
+                 'self.operators[-1][0] == "->" and len(self.operators[-2]) '
+                 '== 0 and self.operators[-3][0] == "=>" and '
+                 'self.operators[-3][1] == "BINARY_LEFT_ASSOCIATIVE" and '
+                 'len(self.operators[-4]) == 0 and '
+                 'self.operators[-5][0] == "or"',
+                 'self.operators[:-4] == std._standard_operators()[:-2]'],
+        serves=('C02',), native=False))
+    return cs
+
+
+def _wf(ops):
+    """Well-formed operator table: starts and ends with a record, no two
+    adjacent separators (every group number is used)."""
+    if not ops or len(ops[0]) < 2 or len(ops[-1]) < 2:
+        return False
+    return not any(len(a) == 0 and len(b) == 0 for a, b in zip(ops, ops[1:]))
+
+
+def init_contracts():
+    cs = []
+    blank = obj('yaql.language.factory.YaqlFactory')
+    common = ['self._keyword_operator is keyword_operator',
+              'self._allow_delegates is allow_delegates', 'wf(self.operators)']
+    for nm, kw in (('none', None), ('empty', '')):
+        cs.append(Contract(
+            F + 'YaqlFactory.__init__', name='factory.__init__/keyword=' + nm,
+            params=dict(self=blank, keyword_operator=kw,
+                        allow_delegates=TBool),
+            env={'wf': _wf},
+            ensures=common + [
+                # no keyword operator: exactly the standard table
+                'self.operators == self._standard_operators()'],
+            serves=('C02',), native=False))
+    cs.append(Contract(
+        F + 'YaqlFactory.__init__', name='factory.__init__/keyword=symbol',
+        params=dict(self=blank, keyword_operator=TStr, allow_delegates=TBool),
+        env={'wf': _wf},
+        requires=['len(keyword_operator) > 0'],
+        ensures=common + [
+            # the keyword pseudo-operator joins the FIRST group
+            'self.operators[0][0] == keyword_operator and '
+            'self.operators[0][1] == "NAME_VALUE_PAIR" and '
+            'len(self.operators[0]) == 2',
+            'self.operators[1:] == self._standard_operators()'],
+        serves=('C02',), native=False))
+    # the legacy factory: no keyword pseudo-operator; `=>` is an ordinary
+    # left-associative binary operator in a group of its own just below `or`
+    cs.append(Contract(
+        'yaql.legacy.YaqlFactory.__init__', name='legacy.factory.__init__',
+        params=dict(self=obj('yaql.legacy.YaqlFactory'),
+                    allow_delegates=TBool),
+        env={'wf': _wf, 'std': obj('yaql.language.factory.YaqlFactory')},
+        ensures=['self._keyword_operator is None', 'wf(self.operators)',
+                 'self._allow_delegates is allow_delegates',
+                 'len(self.operators) == len(std._standard_operators()) + 2',
+                 'self.operators[-1][0] == "->" and len(self.operators[-2]) '
+                 '== 0 and self.operators[-3][0] == "=>" and '
+                 'self.operators[-3][1] == "BINARY_LEFT_ASSOCIATIVE" and '
+                 'len(self.operators[-4]) == 0 and '
+                 'self.operators[-5][0] == "or"',
+                 'self.operators[:-4] == std._standard_operators()[:-2]'],
+        serves=('C02',), native=False))
     return cs
